@@ -385,6 +385,13 @@ func (f *Front) ResetLog() {
 	f.mu.Unlock()
 }
 
+// SetPlan replaces the fault plan while requests may be in flight.
+func (f *Front) SetPlan(p func(ev ReqEvent) *Fault) {
+	f.mu.Lock()
+	f.Plan = p
+	f.mu.Unlock()
+}
+
 func (f *Front) OpenRequests() int64 { return f.open.Load() }
 
 // BlockRequests returns the resources requested (excluding discovery), in order.
